@@ -555,6 +555,15 @@ func runC08RealtimeSmoke(c *fw.Ctx, id string, v refmatch.Variant) {
 		m.extra = func(e *simEnv, p *refmatch.Probe) {
 			if p.TTL == 1 {
 				e.inject(gen.TCPReply(e.spec.Target, e.local, e.spec.Port, e.lport, 0x66000000, p.Seq+7777, wirefmt.TCPSyn|wirefmt.TCPAck, wirefmt.OptMSS(1460), nil, nil), "near-miss-synack", p, 2*time.Millisecond)
+				// ... and a stale time-exceeded of an earlier run on the same port: right addresses and ports, an IP-ID and
+				// sequence number no probe of this run has
+				q := gen.QuoteBytes(p, 1, "fix")
+				if len(q) >= 28 {
+					q[4], q[5] = q[4]^0x3c, q[5]^0xc3
+					q[24], q[25] = q[24]^0x11, q[25]^0x22
+					gen.FixIPv4Checksum(q, "fix")
+					e.inject(gen.WrapError(routerAddr(false, 4, 1), e.local, gen.TimeExceeded, 0, q, "min", nil, 0), "stale-time-exceeded", p, 4*time.Millisecond)
+				}
 			}
 		}
 	}
